@@ -94,6 +94,11 @@ func (p *Proxy) ServeHTTP(w http.ResponseWriter, proxyReq *http.Request) {
 	} else {
 		if err := p.handleHTTP(r, proxyReq); err != nil {
 			slog.Error("Error handling HTTP request", "error", err)
+			if errors.Is(err, ErrResponseIncomplete) {
+				// Returning normally lets net/http close a chunked body properly: the client would take
+				// a body that broke off for a complete one. Aborting ends the connection instead.
+				panic(http.ErrAbortHandler)
+			}
 			return
 		}
 	}
